@@ -56,8 +56,8 @@ class Out:
 def q(x, S):
     """quantise real array to integers at scale S (round half to even like np.rint)"""
     a = np.asarray(x, dtype=float)
-    if not np.all(np.isfinite(a)):
-        raise ValueError("non-finite value in logged observable")
+    # non-finite values are logged as the sentinel 2e9: the law modules report them (clause FiniteValues / bound guards)
+    a = np.where(np.isfinite(a), a, 2.0e9 / S)
     r = np.rint(a * S)
     # values beyond the 32-bit range are clamped: every law that reads them then fails its bound guard
     r = np.clip(r, -2000000000, 2000000000)
